@@ -12,13 +12,17 @@ package durable
 // Commands outside `submittable` end a case and run in a child process first, so that a crash is an observation.
 
 import (
+	"bytes"
+	"context"
 	"fmt"
 	"os"
 	"os/exec"
 	"strconv"
 	"strings"
 	"testing"
+	"time"
 
+	"github.com/westerndigitalcorporation/blb/pkg/raft/raft"
 	vw "github.com/westerndigitalcorporation/blb/pkg/verifwire"
 )
 
@@ -46,22 +50,89 @@ func c10RunCase(ci int, tr *vw.Trace, child bool) {
 	j := r.Intn(n + 1)
 	var snap []byte
 	var snapDump []int64
+	snapLogged, snapTaken := false, false
 	H := &c10Hist{}
 	idx := uint64(0)
 	var kinds []string
 	report := func(sig, what string, detail map[string]interface{}) {
 		vw.Report(vw.Violation{Property: "C10", Signature: sig, What: what, Case: id, Detail: detail})
 	}
-	takeSnap := func() {
-		snap = A.snapshot()
+	// raft calls Snapshot() on the FSM goroutine and the snapshoter's Save() later, with more commands applied in
+	// between: the snapshot object is taken after command j, Save() runs after up to 3 further commands.
+	var snapObj raft.Snapshoter
+	deferLeft := 0
+	type tline struct{ op, obs []int64 }
+	var pending []tline
+	emit := func(op, obs []int64) {
+		if tr == nil {
+			return
+		}
+		if snapTaken && !snapLogged {
+			pending = append(pending, tline{op, obs})
+			return
+		}
+		tr.Op(op...)
+		tr.Obs(obs...)
+	}
+	beginSnap := func() {
+		var err error
+		if snapObj, err = A.h.Snapshot(); err != nil {
+			panic(err)
+		}
+		snapTaken = true
 		snapDump = mTakeDump(A.h).ints()
-		if tr != nil {
+		deferLeft = r.PickInt(0, 1, 2, 3)
+	}
+	saveOnly := func() { // Save() + Release(): from here on the snapshot is bytes
+		if snapObj == nil {
+			return
+		}
+		var buf bytes.Buffer
+		if err := snapObj.Save(&buf); err != nil {
+			panic(err)
+		}
+		snapObj.Release()
+		snapObj = nil
+		snap = buf.Bytes()
+	}
+	finishSnap := func() {
+		saveOnly()
+		if snap != nil && !snapLogged {
+			snapLogged = true
+			if tr == nil {
+				return
+			}
 			tr.Op(101)
 			tr.Obs(int64(mSnapIndex(snap)))
+			for _, l := range pending {
+				tr.Op(l.op...)
+				tr.Obs(l.obs...)
+			}
+			pending = nil
 		}
 	}
+	defer saveOnly() // never leave a read transaction open
+	applyA := func(c *mCmd, idx uint64) (res interface{}, pan string) {
+		if snapObj == nil {
+			return mApply(A, c, idx)
+		}
+		// a writer that has to grow the bolt mmap waits for the snapshot's read transaction: save first then
+		done := make(chan struct{})
+		go func() { res, pan = mApply(A, c, idx); close(done) }()
+		select {
+		case <-done:
+		case <-time.After(60 * time.Millisecond):
+			vw.Stat("deferred-save-blocked-writer", 1)
+			saveOnly()
+			<-done
+		}
+		return
+	}
 	if j == 0 {
-		takeSnap()
+		beginSnap()
+		if deferLeft == 0 {
+			finishSnap()
+		}
 	}
 	cur := mTakeDump(A.h)
 	died := false
@@ -78,10 +149,12 @@ func c10RunCase(ci int, tr *vw.Trace, child bool) {
 			vw.Stat("malformed:"+c.kind, 1)
 			if child {
 				// the real thing: if this kills the process, the parent sees it
+				saveOnly()
 				A.h.Apply(c.entry(idx))
 				fmt.Println("C10CHILD-SURVIVED")
 				return
 			}
+			finishSnap()
 			crashed := c10SpawnChild(ci)
 			if c.malformed == 2 {
 				// unspecified behaviour (read past a flatbuffer vector): not compared, the case ends here
@@ -100,8 +173,9 @@ func c10RunCase(ci int, tr *vw.Trace, child bool) {
 			}
 			vw.Stat("malformed-survived", 1)
 		}
-		res, pan := mApply(A, c, idx)
+		res, pan := applyA(c, idx)
 		if pan != "" {
+			finishSnap()
 			report("crash-on-api-command:"+c.kind, "a command the service's own API can submit made the replica panic while applying it",
 				map[string]interface{}{"panic": pan, "op": vw.Ints(c.line(idx))})
 			died = true
@@ -126,14 +200,22 @@ func c10RunCase(ci int, tr *vw.Trace, child bool) {
 			}
 			vw.Stat(fmt.Sprintf("err:%s:%d", c.kind, e), 1)
 		}
-		if tr != nil {
-			tr.Op(c.line(idx)...)
-			tr.Obs(mObs(rl, cur)...)
+		emit(c.line(idx), mObs(rl, cur))
+		if snapTaken && !snapLogged {
+			if deferLeft--; deferLeft <= 0 {
+				finishSnap()
+			} else {
+				vw.Stat("commands-between-Snapshot-and-Save", 1)
+			}
 		}
 		if p == j {
-			takeSnap()
+			beginSnap()
+			if deferLeft == 0 {
+				finishSnap()
+			}
 		}
 	}
+	finishSnap()
 	if child {
 		fmt.Println("C10CHILD-NO-MALFORMED")
 		return
@@ -147,19 +229,26 @@ func c10RunCase(ci int, tr *vw.Trace, child bool) {
 	ckA := mFullChecksum(A.h)
 
 	// deliver positions [from..to] (1-based) to rep, recording; returns results by position
-	deliver := func(rep *mReplica, from, to int, out map[int][]int64) bool {
+	deliver := func(route string, rep *mReplica, from, to, fresh int, out map[int][]int64) bool {
 		for p := from; p <= to; p++ {
 			c := H.cmds[p-1]
 			res, pan := mApply(rep, c, H.idx[p-1])
 			if pan != "" {
 				report("crash-on-api-command:"+c.kind, "a command the service's own API can submit made a replica panic while applying it",
-					map[string]interface{}{"panic": pan, "op": vw.Ints(c.line(H.idx[p-1])), "route": "replay"})
+					map[string]interface{}{"panic": pan, "op": vw.Ints(c.line(H.idx[p-1])), "route": route})
 				return false
 			}
 			rl := mResult(res)
 			out[p] = rl
 			tr.Op(c.line(H.idx[p-1])...)
 			tr.Obs(mObs(rl, mTakeDump(rep.h))...)
+			// a command this replica sees for the first time must return what the straight replica returned; an
+			// already-applied command handed over again is skipped (nil) or, at worst, answers the same again
+			if !mIntsEq(rl, H.res[p-1]) && !(p < fresh && len(rl) == 1 && rl[0] == 0) {
+				report("result-diverge-"+route, "a replica returned a different result for the same command at the same index",
+					map[string]interface{}{"position": p, "redelivered": p < fresh, "straight": vw.Ints(H.res[p-1]), route: vw.Ints(rl), "op": vw.Ints(c.line(H.idx[p-1]))})
+				return false
+			}
 		}
 		return true
 	}
@@ -172,13 +261,6 @@ func c10RunCase(ci int, tr *vw.Trace, child bool) {
 		} else if ck := mFullChecksum(rep.h); ck != ckA {
 			detail["checksum_straight"], detail["checksum_"+route] = ckA, ck
 			report("checksum-diverge-"+route, "two replicas with the same logical state compute different production checksums ("+route+" route)", detail)
-		}
-		for p := fresh; p <= n; p++ {
-			if rl, ok := out[p]; ok && !mIntsEq(rl, H.res[p-1]) {
-				report("result-diverge-"+route, "a replica returned a different result for the same command at the same index",
-					map[string]interface{}{"position": p, "straight": vw.Ints(H.res[p-1]), route: vw.Ints(rl), "op": vw.Ints(H.cmds[p-1].line(H.idx[p-1]))})
-				break
-			}
 		}
 	}
 
@@ -199,7 +281,7 @@ func c10RunCase(ci int, tr *vw.Trace, child bool) {
 	tr.Op(104)
 	tr.Obs(mTakeDump(B.h).ints()...)
 	outB := map[int][]int64{}
-	if deliver(B, 1, k, outB) {
+	if deliver("snapshot", B, 1, k, 1, outB) {
 		B.restore(snap)
 		db := mTakeDump(B.h).ints()
 		tr.Op(102)
@@ -209,7 +291,7 @@ func c10RunCase(ci int, tr *vw.Trace, child bool) {
 				map[string]interface{}{"k": k, "j": jj, "snapshot": vw.Ints(snapDump), "after": vw.Ints(db)})
 		}
 		outB = map[int][]int64{}
-		if deliver(B, s, n, outB) {
+		if deliver("snapshot", B, s, n, jj+1, outB) {
 			compare("snapshot", B, outB, jj+1, map[string]interface{}{"k": k, "j": jj, "suffix_from": s})
 		}
 	}
@@ -222,7 +304,7 @@ func c10RunCase(ci int, tr *vw.Trace, child bool) {
 	tr.Op(104)
 	tr.Obs(mTakeDump(C.h).ints()...)
 	outC := map[int][]int64{}
-	if deliver(C, 1, m, outC) {
+	if deliver("restart", C, 1, m, 1, outC) {
 		before := mTakeDump(C.h).ints()
 		C.restart()
 		dc := mTakeDump(C.h).ints()
@@ -233,7 +315,7 @@ func c10RunCase(ci int, tr *vw.Trace, child bool) {
 				map[string]interface{}{"before": vw.Ints(before), "after": vw.Ints(dc)})
 		}
 		outC = map[int][]int64{}
-		if deliver(C, s2, n, outC) {
+		if deliver("restart", C, s2, n, m+1, outC) {
 			compare("restart", C, outC, m+1, map[string]interface{}{"m": m, "redeliver_from": s2})
 		}
 	}
@@ -254,10 +336,15 @@ func c10RunCase(ci int, tr *vw.Trace, child bool) {
 
 // re-run case ci in a child process up to and including its malformed command; true if the child died
 func c10SpawnChild(ci int) bool {
-	cmd := exec.Command(os.Args[0], "-test.run", "^TestVerifC10$", "-test.count=1")
+	ctx, cancel := context.WithTimeout(context.Background(), 90*time.Second)
+	defer cancel()
+	cmd := exec.CommandContext(ctx, os.Args[0], "-test.run", "^TestVerifC10$", "-test.count=1")
 	cmd.Env = append(os.Environ(), "VERIF_C10_CHILD="+strconv.Itoa(ci))
 	out, err := cmd.CombinedOutput()
 	survived := strings.Contains(string(out), "C10CHILD-SURVIVED")
+	if ctx.Err() != nil {
+		panic("C10 harness: child process hung\n" + string(out))
+	}
 	if strings.Contains(string(out), "C10CHILD-NO-MALFORMED") {
 		panic("C10 harness: child did not reach the malformed command (generator not deterministic?)\n" + string(out))
 	}
